@@ -79,17 +79,41 @@ def _load_aliases(repo):
     return out
 
 
+def _default_context_year(repo):
+    """`constants = PhysicalConstantsContext("CODATA<year>")` at module level of physical_constants/context.py, and
+    datum.py's to_units must use that singleton (`from .physical_constants import constants`)."""
+    import re
+    path = os.path.join(repo, "qcelemental", "physical_constants", "context.py")
+    try:
+        with open(path) as fh:
+            tree = ast.parse(fh.read())
+    except Exception as e:
+        raise TranslateError(f"radii: cannot parse physical_constants/context.py: {e}")
+    found = []
+    for n in tree.body:
+        if isinstance(n, ast.Assign) and len(n.targets) == 1 and isinstance(n.targets[0], ast.Name) and n.targets[0].id == "constants":
+            v = n.value
+            ok = (isinstance(v, ast.Call) and isinstance(v.func, ast.Name) and v.func.id == "PhysicalConstantsContext"
+                  and len(v.args) == 1 and not v.keywords and isinstance(v.args[0], ast.Constant) and isinstance(v.args[0].value, str))
+            if not ok:
+                raise TranslateError("context.py: `constants = ...` is not PhysicalConstantsContext(\"CODATA<year>\")")
+            found.append(v.args[0].value)
+    if len(found) != 1 or not re.fullmatch(r"CODATA(2014|2018)", found[0]):
+        raise TranslateError(f"context.py: expected exactly one module-level singleton `constants`, found {found}")
+    return int(found[0][6:])
+
+
 def load(repo):
     cov = _load_dict(repo, "alvarez_2008_covalent_radii.py", "alvarez_2008_covalent_radii", "covalent_radii", 3)
     vdw = _load_dict(repo, "mantina_2009_vanderwaals_radii.py", "mantina_2009_vanderwaals_radii", "vanderwaals_radii", 2)
-    return {"cov": cov, "vdw": vdw, "aliases": _load_aliases(repo)}
+    return {"cov": cov, "vdw": vdw, "aliases": _load_aliases(repo), "codata_year": _default_context_year(repo)}
 
 
 def generate(repo):
     d = load(repo)
     out = ["(* GENERATED from qcelemental/data/{alvarez_2008_covalent_radii,mantina_2009_vanderwaals_radii}.py and the aliases literal of",
            "   CovalentRadii.__init__ by harness/translate/radii.py — do not edit *)",
-           "From Coq Require Import List String.", "Import ListNotations.", "Open Scope string_scope.", "",
+           "From Coq Require Import ZArith List String.", "Import ListNotations.", "Open Scope string_scope.", "",
            "(* (label, value as decimal string, comment) *)",
            "Definition cov_rows : list (string * string * string) := "
            + clist(d["cov"]["rows"], lambda r: f"({cstr(r[0])}, {cstr(r[1])}, {cstr(r[2])})") + ".",
@@ -99,6 +123,8 @@ def generate(repo):
            + clist(d["aliases"], lambda r: f"({cstr(r[0])}, {cstr(r[1])}, {cstr(r[2])}, {cstr(r[3])})") + ".",
            "Definition vdw_rows : list (string * string) := "
            + clist(d["vdw"]["rows"], lambda r: f"({cstr(r[0])}, {cstr(r[1])})") + ".",
-           f"Definition vdw_units : string := {cstr(d['vdw']['units'])}.", ""]
+           f"Definition vdw_units : string := {cstr(d['vdw']['units'])}.",
+           "(* the CODATA set of the module-level singleton `constants` that Datum.to_units converts with *)",
+           "Definition default_codata_year : Z := (%d)%%Z." % d["codata_year"], ""]
     coqrun.write_if_changed(os.path.join(coqrun.COQ, "Gen", "Radii.v"), "\n".join(out) + "\n")
     return d
